@@ -365,6 +365,11 @@ TStrip(s) == IF s = "sp" THEN "x" ELSE IF s = "ws" THEN "" ELSE s
 ScalText(v) == IF v.t = "none" THEN "None" ELSE v.s
 IsScal(v) == v.t \in {"s", "i", "none"}
 
+\* an element tree with raw text tokens, as the reader sees it (text stripped)
+RECURSIVE TStripTree(_), TStripSeq(_)
+TStripSeq(ks) == IF ks = <<>> THEN <<>> ELSE <<TStripTree(Head(ks))>> \o TStripSeq(Tail(ks))
+TStripTree(e) == EN(e.tag, TStrip(e.text), e.attrs, TStripSeq(e.k))
+
 \* keys in the order python sorts them: "_text" < "a" < "b" < "k"
 KRank(key) == CASE key = "_text" -> 0 [] key = "a" -> 1 [] key = "b" -> 2 [] key = "k" -> 3 [] OTHER -> 4
 KName(r) == CASE r = 0 -> "_text" [] r = 1 -> "a" [] r = 2 -> "b" [] r = 3 -> "k" [] OTHER -> "?"
